@@ -71,10 +71,39 @@ def decoder_domain(rng, tier, pid, scale=1.0, sweep=True):
     for i in range(int((800 if q else 10000) * scale)):
         dom.append(("soup", G.random_opcode_soup(r, 1 + r.below(40))))
     dom += [("bomb", d) for d in G.length_bombs()]
+    dom += [("escape", d) for d in escape_programs()]
     if sweep:
         dom += [("sweep", d) for d in G.stack_sweep()]
     dom = [(t, d) for (t, d) in dom if model_ok_input(d)]
     return dom, hist
+
+def escape_programs():
+    """the escape grammars of the two text decoders, exhaustively at the edges: backslash + every byte,
+    octal escapes of 1..4 digits over the boundary digits, \\x / \\u / \\U with every digit count up to
+    one too many and a non-digit at every position, in both quote styles / at the end of the payload"""
+    out = []
+    bodies = [b"\\" + bytes([c]) for c in range(256) if c != 10]
+    for a in b"0347":
+        bodies.append(b"\\" + bytes([a]))
+        for b_ in b"0378":
+            bodies.append(b"\\" + bytes([a, b_]))
+            for c in b"0178":
+                bodies.append(b"\\" + bytes([a, b_, c]))
+                bodies.append(b"\\" + bytes([a, b_, c]) + b"7")
+    for lead, n in ((b"x", 2), (b"u", 4), (b"U", 8)):
+        for k in range(0, n + 2):
+            bodies.append(b"\\" + lead + b"f" * k)
+            bodies.append(b"\\" + lead + b"0" * k)
+            if k: bodies.append(b"\\" + lead + b"1" * (k - 1) + b"g")
+        bodies.append(b"\\" + lead + b"0010ffff"[:n])
+        bodies.append(b"\\U00110000"); bodies.append(b"\\Uffffffff"); bodies.append(b"\\ud800"); bodies.append(b"\\udfff\\ud800")
+    for body in bodies:
+        for pre, post in ((b"", b""), (b"a", b"b")):
+            t = pre + body + post
+            out.append(b"S'" + t + b"'\n.")
+            out.append(b'S"' + t + b'"\n.')
+            out.append(b"V" + t + b"\n.")
+    return out
 
 def dec_lines(dom, lm="0", configs=CONFIGS):
     lines, meta = [], []
